@@ -5,11 +5,12 @@ Only property statements and non-vacuity examples; lemmas are in Proofs/C10.lean
   e        : any finite term of the criteria algebra (Model/C10.lean `Expr`: And/Or/Xor/Not lists, comparisons,
              string predicates, IS [NOT] NULL, kind matchers any-of/all-of, IN, references, id()/toLower()/…,
              parameters, literals null/bool/int/float/string/list)
-  emit     : format.go as it is            emitFixed : the minimally repaired emitter (hooks/C10-fix.patch)
+  emit     : format.go as it is now       emitOld : format.go before the three C10 fixes (4086218, 04efdd9, 7bfe5dc)
   parse    : precedence-climbing parser following Cypher.g4 and building what cypher/frontend builds
   norm     : erase parentheses, flatten same-operator lists, collapse one-element lists, expand kind matchers
 -/
-import Dawgs.Proofs.C10
+import Dawgs.Proofs.C10Q
+import Dawgs.Spec.C10Q
 namespace Dawgs.C10.Props
 open Dawgs.C10
 
@@ -19,8 +20,11 @@ def RoundTrips (em : Expr → List Tok) (e : Expr) : Prop := (parse (em e)).map 
 /-- the statement of properties.jsonl at full strength: every finite term, the emitter as it is -/
 def C10_full : Prop := ∀ e : Expr, RoundTrips emit e
 
-/-- the same for well-formed terms only (no empty list, integers within ±(2^63-1)) -/
-def BuilderRoundtrip : Prop := ∀ e : Expr, valid e = true → RoundTrips emit e
+/-- the same statement about format.go before the three fixes -/
+def C10_full_old : Prop := ∀ e : Expr, RoundTrips emitOld e
+
+/-- … and restricted to well-formed terms (no empty list, integers within ±(2^63-1)) -/
+def BuilderRoundtripOld : Prop := ∀ e : Expr, valid e = true → RoundTrips emitOld e
 
 /-! ### the comparison is semantic -/
 
@@ -35,23 +39,23 @@ theorem parse_emit_canonical (c : Expr) (h : canonL 0 c = true) : parse (emitE F
   parse_emit_canon c h
 
 /-- the repaired emitter writes exactly the canonical representative of the term … -/
-theorem emitFixed_canonical (e : Expr) (h : valid e = true) :
-    emitFixed e = emitE Fix.canon (canon e) ∧ canonL 0 (canon e) = true ∧ norm (canon e) = norm e :=
+theorem emit_canonical (e : Expr) (h : valid e = true) :
+    emit e = emitE Fix.canon (canon e) ∧ canonL 0 (canon e) = true ∧ norm (canon e) = norm e :=
   ⟨emitFixed_eq e h, canonL_mono _ _ 0 (canon_canonical e h) (Nat.zero_le _), norm_canon e⟩
 
 /-! ### round trip -/
 
-/-- … hence every well-formed term round-trips through the repaired emitter -/
-theorem builder_roundtrip_fixed (e : Expr) (h : valid e = true) : RoundTrips emitFixed e := by
-  obtain ⟨h1, h2, h3⟩ := emitFixed_canonical e h
+/-- … hence every well-formed term round-trips through the emitter as it is -/
+theorem builder_roundtrip (e : Expr) (h : valid e = true) : RoundTrips emit e := by
+  obtain ⟨h1, h2, h3⟩ := emit_canonical e h
   simp [RoundTrips, h1, parse_emit_canonical _ h2, h3]
 
 /-- the current emitter round-trips on the sub-algebra without the three F8 shapes (`safe`, decidable) -/
-theorem builder_roundtrip_partial (e : Expr) (h : valid e = true) (hs : safe e = true) : RoundTrips emit e := by
+theorem builder_roundtrip_old_partial (e : Expr) (h : valid e = true) (hs : safe e = true) : RoundTrips emitOld e := by
   simp only [safe, Bool.and_eq_true, Bool.not_eq_true'] at hs
-  have : emit e = emitFixed e := emit_safe e hs.1.1 hs.1.2 hs.2
+  have : emitOld e = emit e := emit_safe e hs.1.1 hs.1.2 hs.2
   rw [RoundTrips, this]
-  exact builder_roundtrip_fixed e h
+  exact builder_roundtrip e h
 
 /-- without the parenthesis defect alone nothing else is needed for the boolean skeleton: terms built only from
 query.And/Or/Xor/Not over parameterised comparisons are safe iff no Xor sits directly under an And -/
@@ -71,82 +75,98 @@ def wFloat : Expr := .cmp (.prop "n" "x") .eq (.lit (.float ⟨false, 1, []⟩))
 /-- parsed `n:A:B` / cypher.NewKindMatcher(n, {A,B}, true) -/
 def wAllOf : Expr := .kinds "n" ["A", "B"] true
 
-theorem refute_and_over_xor : valid wAndXor = true ∧ ¬ RoundTrips emit wAndXor := by
+theorem refute_and_over_xor_old : valid wAndXor = true ∧ ¬ RoundTrips emitOld wAndXor := by
   refine ⟨rfl, ?_⟩
   intro h
-  have hp : parse (emit wAndXor) = some (.join .xor [.join .and [cx, cy], cz]) := by rfl
+  have hp : parse (emitOld wAndXor) = some (.join .xor [.join .and [cx, cy], cz]) := by rfl
   have hn : norm wAndXor = .join .and [cx, .join .xor [cy, cz]] := by rfl
   have hn' : norm (.join .xor [.join .and [cx, cy], cz]) = .join .xor [.join .and [cx, cy], cz] := by rfl
   simp [RoundTrips, hp, hn, hn'] at h
 
 /-- x = false, y = false, z = true: the model says false, the emitted text says true -/
-theorem and_over_xor_changes_meaning :
-    ∃ v : Val, (parse (emit wAndXor)).map (eval v) = some (some true) ∧ eval v wAndXor = some false := by
+theorem and_over_xor_changes_meaning_old :
+    ∃ v : Val, (parse (emitOld wAndXor)).map (eval v) = some (some true) ∧ eval v wAndXor = some false := by
   refine ⟨⟨fun _ _ r => match r with | .param "p2" => some true | _ => some false, fun _ _ => none, fun _ _ => none⟩, ?_, ?_⟩ <;> rfl
 
-theorem refute_integral_float : valid wFloat = true ∧ ¬ RoundTrips emit wFloat := by
+theorem refute_integral_float_old : valid wFloat = true ∧ ¬ RoundTrips emitOld wFloat := by
   refine ⟨rfl, ?_⟩
   intro h
-  have hp : parse (emit wFloat) = some (.cmp (.prop "n" "x") .eq (.lit (.int 1))) := by rfl
+  have hp : parse (emitOld wFloat) = some (.cmp (.prop "n" "x") .eq (.lit (.int 1))) := by rfl
   have hn : norm wFloat = .cmp (.prop "n" "x") .eq (.lit (.float ⟨false, 1, []⟩)) := by rfl
   have hn' : norm (.cmp (.prop "n" "x") .eq (.lit (.int 1))) = .cmp (.prop "n" "x") .eq (.lit (.int 1)) := by rfl
   simp [RoundTrips, hp, hn, hn'] at h
 
-theorem refute_all_of_kinds : valid wAllOf = true ∧ ¬ RoundTrips emit wAllOf := by
+theorem refute_all_of_kinds_old : valid wAllOf = true ∧ ¬ RoundTrips emitOld wAllOf := by
   refine ⟨rfl, ?_⟩
   intro h
-  have hp : parse (emit wAllOf) = some (.paren (.join .or [.kinds "n" ["A"] true, .kinds "n" ["B"] true])) := by rfl
+  have hp : parse (emitOld wAllOf) = some (.paren (.join .or [.kinds "n" ["A"] true, .kinds "n" ["B"] true])) := by rfl
   have hn : norm wAllOf = .join .and [.kinds "n" ["A"] true, .kinds "n" ["B"] true] := by rfl
   have hn' : norm (.paren (.join .or [.kinds "n" ["A"] true, .kinds "n" ["B"] true])) =
       .join .or [.kinds "n" ["A"] true, .kinds "n" ["B"] true] := by rfl
   simp [RoundTrips, hp, hn, hn'] at h
 
 /-- n has kind A but not B: the model (all-of) says false, the emitted text (`or`) says true -/
-theorem all_of_kinds_changes_meaning :
-    ∃ v : Val, (parse (emit wAllOf)).map (eval v) = some (some true) ∧ eval v wAllOf = some false := by
+theorem all_of_kinds_changes_meaning_old :
+    ∃ v : Val, (parse (emitOld wAllOf)).map (eval v) = some (some true) ∧ eval v wAllOf = some false := by
   refine ⟨⟨fun _ _ _ => none, fun _ _ => none, fun _ k => some (k == "A")⟩, ?_, ?_⟩ <;> rfl
 
-theorem builder_roundtrip_refuted : ¬ BuilderRoundtrip := fun h => refute_and_over_xor.2 (h _ refute_and_over_xor.1)
+theorem builder_roundtrip_old_refuted : ¬ BuilderRoundtripOld := fun h => refute_and_over_xor_old.2 (h _ refute_and_over_xor_old.1)
 
-theorem c10_full_refuted : ¬ C10_full := fun h => refute_and_over_xor.2 (h _)
+theorem c10_full_old_refuted : ¬ C10_full_old := fun h => refute_and_over_xor_old.2 (h _)
 
 /-! shapes reachable through the cypher model constructors only (cypher.NewNegation / NewDisjunction without a
 Parenthetical): same defect class, plus the frontend's collapse of repeated NOTs -/
 
-theorem refute_not_over_and : ¬ RoundTrips emit (.neg (.join .and [cy, cz])) := by
+theorem refute_not_over_and_old : ¬ RoundTrips emitOld (.neg (.join .and [cy, cz])) := by
   intro h
-  have hp : parse (emit (.neg (.join .and [cy, cz]))) = some (.join .and [.neg cy, cz]) := by rfl
+  have hp : parse (emitOld (.neg (.join .and [cy, cz]))) = some (.join .and [.neg cy, cz]) := by rfl
   have hn : norm (.neg (.join .and [cy, cz])) = .neg (.join .and [cy, cz]) := by rfl
   have hn' : norm (.join .and [.neg cy, cz]) = .join .and [.neg cy, cz] := by rfl
   simp [RoundTrips, hp, hn, hn'] at h
 
-theorem refute_not_not : ¬ RoundTrips emit (.neg (.neg cy)) := by
+theorem refute_not_not_old : ¬ RoundTrips emitOld (.neg (.neg cy)) := by
   intro h
-  have hp : parse (emit (.neg (.neg cy))) = some (.neg cy) := by rfl
+  have hp : parse (emitOld (.neg (.neg cy))) = some (.neg cy) := by rfl
   have hn : norm (.neg (.neg cy)) = .neg (.neg cy) := by rfl
   have hn' : norm (.neg cy) = .neg cy := by rfl
   simp [RoundTrips, hp, hn, hn'] at h
   simp [cy] at h
 
-theorem refute_and_over_bare_or : ¬ RoundTrips emit (.join .and [cx, .join .or [cy, cz]]) := by
+theorem refute_and_over_bare_or_old : ¬ RoundTrips emitOld (.join .and [cx, .join .or [cy, cz]]) := by
   intro h
-  have hp : parse (emit (.join .and [cx, .join .or [cy, cz]])) = some (.join .or [.join .and [cx, cy], cz]) := by rfl
+  have hp : parse (emitOld (.join .and [cx, .join .or [cy, cz]])) = some (.join .or [.join .and [cx, cy], cz]) := by rfl
   have hn : norm (.join .and [cx, .join .or [cy, cz]]) = .join .and [cx, .join .or [cy, cz]] := by rfl
   have hn' : norm (.join .or [.join .and [cx, cy], cz]) = .join .or [.join .and [cx, cy], cz] := by rfl
   simp [RoundTrips, hp, hn, hn'] at h
 
 /-- the hypotheses of the positive theorems are necessary: an empty criteria list prints nothing, and
 -2^63 (a legal Go int64) prints digits that ParseInt rejects — neither is repaired by the patch -/
-theorem valid_needed_empty_list : ¬ RoundTrips emitFixed (qNot (qAnd [])) := by
+theorem valid_needed_empty_list : ¬ RoundTrips emit (qNot (qAnd [])) := by
   intro h
-  have hp : parse (emitFixed (qNot (qAnd []))) = none := by rfl
+  have hp : parse (emit (qNot (qAnd []))) = none := by rfl
   simp [RoundTrips, hp] at h
 
 theorem valid_needed_min_int64 :
-    ¬ RoundTrips emitFixed (.cmp (.prop "n" "x") .eq (.lit (.int (-9223372036854775808)))) := by
+    ¬ RoundTrips emit (.cmp (.prop "n" "x") .eq (.lit (.int (-9223372036854775808)))) := by
   intro h
-  have hp : parse (emitFixed (.cmp (.prop "n" "x") .eq (.lit (.int (-9223372036854775808))))) = none := by rfl
+  have hp : parse (emit (.cmp (.prop "n" "x") .eq (.lit (.int (-9223372036854775808))))) = none := by rfl
   simp [RoundTrips, hp] at h
+
+/-- `C10_full` is the statement about the code that exists. What is still false of it is exactly two clauses:
+(1) a term with an empty criteria list / a kind matcher without kinds, (2) an integer literal of magnitude > 2^63-1.
+Every term with neither round-trips; each clause has a witness (neither is touched by the emitter fixes). -/
+theorem c10_full_except (e : Expr) (h1 : listsNonEmpty e = true) (h2 : literalsInRange e = true) : RoundTrips emit e :=
+  builder_roundtrip e (by rw [valid_split, h1, h2]; rfl)
+
+theorem c10_full_fails_only_there (e : Expr) (h : ¬ RoundTrips emit e) : listsNonEmpty e = false ∨ literalsInRange e = false := by
+  cases h1 : listsNonEmpty e <;> cases h2 : literalsInRange e <;> simp
+  exact h (c10_full_except e h1 h2)
+
+theorem c10_full_refuted : ¬ C10_full := fun h => valid_needed_empty_list (h _)
+
+example : listsNonEmpty (qNot (qAnd [])) = false ∧ literalsInRange (qNot (qAnd [])) = true := ⟨rfl, rfl⟩
+example : listsNonEmpty (.cmp (.prop "n" "x") .eq (.lit (.int (-9223372036854775808)))) = true ∧
+    literalsInRange (.cmp (.prop "n" "x") .eq (.lit (.int (-9223372036854775808)))) = false := ⟨rfl, rfl⟩
 
 /-! ### literals -/
 
@@ -156,33 +176,33 @@ theorem operand_roundtrip_fixed (o : Operand) (h : o.ok = true) : parseOperand (
   simp only [List.append_nil] at this
   simp [parseOperand, this]
 
-/-- every literal type through the repaired printer: null, booleans, integers with |i| ≤ 2^63-1, every finite
+/-- every literal type through the printer as it is: null, booleans, integers with |i| ≤ 2^63-1, every finite
 float (canonical decimal, ±0 included), every string token -/
 theorem literal_roundtrip (l : Lit) (h : l.ok = true) : parseOperand (emitLit true l) = some (.lit l) := by
   simpa [emitO] using operand_roundtrip_fixed (.lit l) (by simpa [Operand.ok] using h)
 
-/-- the current printer: the same, except floats with an integral value -/
-theorem literal_roundtrip_current (l : Lit) (h : l.ok = true) (hf : l.integralFloat = false) :
+/-- the printer before 04efdd9: the same, except floats with an integral value -/
+theorem literal_roundtrip_old (l : Lit) (h : l.ok = true) (hf : l.integralFloat = false) :
     parseOperand (emitLit false l) = some (.lit l) := by
   rw [emitLit_safe l hf]; exact literal_roundtrip l h
 
-theorem literal_roundtrip_null : parseOperand (emitLit false .null) = some (.lit .null) := by rfl
-theorem literal_roundtrip_bool (b : Bool) : parseOperand (emitLit false (.bool b)) = some (.lit (.bool b)) :=
-  literal_roundtrip_current _ rfl rfl
-theorem literal_roundtrip_int (i : Int) (h : i.natAbs ≤ maxI) : parseOperand (emitLit false (.int i)) = some (.lit (.int i)) :=
-  literal_roundtrip_current _ (by simpa [Lit.ok] using h) rfl
-theorem literal_roundtrip_float_fixed (d : Dec) (h : stripZ d.frac = d.frac) :
+theorem literal_roundtrip_null : parseOperand (emitLit true .null) = some (.lit .null) := by rfl
+theorem literal_roundtrip_bool (b : Bool) : parseOperand (emitLit true (.bool b)) = some (.lit (.bool b)) :=
+  literal_roundtrip _ rfl
+theorem literal_roundtrip_int (i : Int) (h : i.natAbs ≤ maxI) : parseOperand (emitLit true (.int i)) = some (.lit (.int i)) :=
+  literal_roundtrip _ (by simpa [Lit.ok] using h)
+theorem literal_roundtrip_float (d : Dec) (h : stripZ d.frac = d.frac) :
     parseOperand (emitLit true (.float d)) = some (.lit (.float d)) :=
   literal_roundtrip _ (by simpa [Lit.ok] using h)
-theorem literal_roundtrip_string_token (s : String) : parseOperand (emitLit false (.str s)) = some (.lit (.str s)) :=
-  literal_roundtrip_current _ rfl rfl
+theorem literal_roundtrip_string_token (s : String) : parseOperand (emitLit true (.str s)) = some (.lit (.str s)) :=
+  literal_roundtrip _ rfl
 /-- list literals of any nesting over valid operands -/
 theorem literal_roundtrip_list (xs : List Operand) (h : Operand.oks xs = true) :
     parseOperand (emitO true (.list xs)) = some (.list xs) :=
   operand_roundtrip_fixed _ (by simpa [Operand.ok] using h)
 
 /-- 1.0 is written `1` and read back as the integer 1; -0.0 is written `-0` and read back as the integer 0 -/
-theorem float_integral_becomes_int :
+theorem float_integral_becomes_int_old :
     parseOperand (emitLit false (.float ⟨false, 1, []⟩)) = some (.lit (.int 1)) ∧
     parseOperand (emitLit false (.float ⟨true, 0, []⟩)) = some (.lit (.int 0)) := ⟨rfl, rfl⟩
 
@@ -194,7 +214,7 @@ theorem literal_roundtrip_string (s rest : List Char) : lexStr (quote s ++ rest)
 /-- escaping that forgets the backslash is wrong: `a\` would swallow the closing quote -/
 example : lexStr ('\'' :: (escCharsNoBackslash ['a', '\\'] ++ ['\''])) = none := by rfl
 
-/-! ### Prepare: kinds hoisted onto the MATCH pattern are part of the meaning
+/-! ### Prepare as it is (`prep` = the ExpressionListRewriter of /repo): kinds hoisted onto the MATCH pattern are part of the meaning
 
 `prep false` is the neo4j ExpressionListRewriter without the string-negation null guard (a deliberate change of meaning,
 see `string_negation_guard_eval`); `meaning v ks w` = "the relationship has one of the kinds `ks` and `w` is true". -/
@@ -279,13 +299,89 @@ example : hoistOK (qAnd [qNot rx, .paren (qAnd [rx, qKind "r" ["A", "B"]]), qOr 
   ⟨rfl, rfl, rfl⟩
 example : hoistOK wNegKind = true ∧ hoistOK (qOr [qKind "r" ["A"], rx]) = false := ⟨rfl, rfl⟩
 
+/-! ### PROPOSAL, not the code that exists: Prepare with hooks/C10-fix7 (`prepFix7`) needs no hypothesis beyond well-formedness.
+The patch was not taken (a relationship kind matcher left in the WHERE clause is rejected by some Neo4j versions), so these
+theorems describe the repair, and `prepare_preserves_eval` above (with `hoistOK`) describes /repo. -/
+
+/-- The kinds Prepare puts on the MATCH pattern together with the WHERE it leaves mean what the criteria meant, for
+every valid term and every valuation (string-negation null guard aside, see `string_negation_guard_eval`). -/
+theorem prepare_preserves_eval_fix7 (v : Val) (e : Expr) (hv : valid e = true) :
+    meaning v (flattenKinds (prepFix7 false false false true true e).1) (prepFix7 false false false true true e).2 = eval v e := by
+  have g := prepFix7_good v e false false true true hv
+  generalize prepFix7 false false false true true e = p at g
+  obtain ⟨h, w⟩ := p
+  simp only at g ⊢
+  match h, g.len, g.ev, g.ne with
+  | [], _, hev, _ => simpa [meaning, flattenKinds, patK, allK] using hev
+  | [ks], _, hev, hne =>
+    have : ks ≠ [] := hne ks (by simp)
+    match ks, this with
+    | k :: ks', _ => simpa [meaning, flattenKinds, patK, allK, and3_true_right] using hev
+  | _ :: _ :: _, hlen, _, _ => simp at hlen
+
+/-- at most one matcher is hoisted -/
+theorem prepare_hoists_at_most_one_fix7 (e : Expr) (hv : valid e = true) : (prepFix7 false false false true true e).1.length ≤ 1 :=
+  (prepFix7_good ⟨fun _ _ _ => none, fun _ _ => none, fun _ _ => none⟩ e false false true true hv).len
+
+/-- with the proposal, the shapes the rewriter gets wrong would be left in the WHERE clause (or hoisted once) -/
+example : prepareFix7 (qOr [qKind "r" ["A"], rx]) = ([], some (qOr [qKind "r" ["A"], rx])) := by rfl
+example : prepareFix7 (qXor [qKind "r" ["A"], rx]) = ([], some (qXor [qKind "r" ["A"], rx])) := by rfl
+example : prepareFix7 (qAnd [qKind "r" ["A"], qKind "r" ["B"], rx]) = (["A"], some (.join .and [qKind "r" ["B"], rx])) := by rfl
+example : prepareFix7 (qAnd [.kinds "r" ["A", "B"] true, rx]) = ([], some (qAnd [.kinds "r" ["A", "B"] true, rx])) := by rfl
+example : prepareFix7 wNegKind = ([], some wNegKind) := by rfl
+example : prepareFix7 (qAnd [qNot rx, .paren (qAnd [rx, qKind "r" ["A", "B"]])]) =
+    (["A", "B"], some (.join .and [qNot rx, .paren rx])) := by rfl
+
+/-! ### clause level: the whole query the builders assemble
+
+`Query` = MATCH pattern, WHERE criteria, the update builders (Create / Delete / SetProperty / SetProperties / AddKind(s) /
+DeleteKind(s) / DeleteProperty / DeleteProperties) and RETURN [DISTINCT] items ORDER BY … SKIP … LIMIT …;
+`emitQ` = formatSinglePartQuery as it is, `parseQ` builds what cypher/frontend builds. -/
+
+/-- the parser inverts the emitter on every well-formed query, exactly, up to the canonical form of the WHERE … -/
+theorem query_parse_emit (q : Query) (hv : validQ q = true) : parseQ (emitQ q) = some (canonQ q) := parseQ_emit q hv
+
+/-- … hence `builder_roundtrip` for whole queries: same pattern, same updates, same projection, and a WHERE with the
+same normal form -/
+theorem query_roundtrip (q : Query) (hv : validQ q = true) : (parseQ (emitQ q)).map normQ = some (normQ q) := by
+  rw [query_parse_emit q hv]; simp [normQ_canonQ]
+
+/-- Parameters lifted by Prepare: the `$` tokens of the emitted text are p0, p1, … in text order — the numbering is a
+function of the query's shape alone (deterministic), every occurrence gets its own name (pairwise distinct), and the
+map binds the i-th name to the i-th value handed to the builders (value-preserving). -/
+theorem prepare_parameters_preserved {V : Type} (q : Query) (hw : q.pattern = [] → q.where_ = none) (vals : List V)
+    (hl : vals.length = cntQ q) :
+    paramToks (emitQ (liftQ 0 q)) = (bindings 0 vals).map Prod.fst ∧
+    (bindings 0 vals).map Prod.snd = vals ∧
+    ((bindings 0 vals).map Prod.fst).Nodup := by
+  refine ⟨?_, bindings_snd vals 0, ?_⟩
+  · rw [paramToks_liftQ q hw 0, bindings_fst, hl]
+  · rw [bindings_fst]; exact names_nodup 0 _
+
+/-- the numbering does not depend on the names the parameters had before -/
+theorem lift_numbering (q : Query) (hw : q.pattern = [] → q.where_ = none) (n : Nat) :
+    paramToks (emitQ (liftQ n q)) = names n (cntQ q) := paramToks_liftQ q hw n
+
+def qExample : Query :=
+  ⟨[.node (some "s") [] none, .rel (some "r") [] none, .node none [] none],
+   some (qAnd [.cmp (.prop "r" "x") .eq (.param ""), qKind "r" ["A", "B"], qOr [.isNull (.prop "s" "y") false, .cmp (.param "") .isIn (.prop "s" "z")]]),
+   [.set [.prop "s" "a" (.param ""), .kinds "s" ["K"]], .remove [.prop "s" "c", .kinds "s" ["A", "B"]], .delete true ["r"],
+    .create [.node (some "n") ["A"] (some ""), .node (some "m") [] none]],
+   some ⟨true, [.op (.var "s"), .fnDistinct "count" (.var "r"), .op (.fn "id" (.var "s"))], [⟨.prop "s" "n", false⟩, ⟨.prop "s" "z", true⟩],
+     some (.lit (.int 5)), some (.lit (.int (-1)))⟩⟩
+
+example : validQ qExample = true ∧ cntQ qExample = 4 := ⟨rfl, rfl⟩
+example : paramToks (emitQ (liftQ 0 qExample)) = ["p0", "p1", "p2", "p3"] := by rfl
+example : ((prepareQ false qExample).map (fun q => q.pattern)) =
+    some [.node (some "s") [] none, .rel (some "r") ["A", "B"] none, .node none [] none] := by rfl
+
 /-! ### non-vacuity -/
 example : valid wAndXor = true ∧ safe wAndXor = false := ⟨rfl, rfl⟩
 example : valid (qAnd [cx, qOr [cy, qNot cz], qKind "n" ["A", "B"]]) = true ∧
     safe (qAnd [cx, qOr [cy, qNot cz], qKind "n" ["A", "B"]]) = true := ⟨rfl, rfl⟩
 example : canonL 0 (canon wAndXor) = true := by rfl
 example : (Lit.float ⟨true, 12, [5]⟩).ok = true ∧ (Lit.int (-9223372036854775807)).ok = true := ⟨rfl, rfl⟩
-example : RoundTrips emitFixed wAndXor ∧ RoundTrips emitFixed wFloat ∧ RoundTrips emitFixed wAllOf :=
-  ⟨builder_roundtrip_fixed _ rfl, builder_roundtrip_fixed _ rfl, builder_roundtrip_fixed _ rfl⟩
+example : RoundTrips emit wAndXor ∧ RoundTrips emit wFloat ∧ RoundTrips emit wAllOf :=
+  ⟨builder_roundtrip _ rfl, builder_roundtrip _ rfl, builder_roundtrip _ rfl⟩
 
 end Dawgs.C10.Props
